@@ -40,6 +40,12 @@ def install_callback_env(ip):
     from pyvc.sym import ExcVal
 
     def cb_model(ip_, o, name, args, kw, ctx):
+        if name == "__bool__":
+            # a callable may be falsy (an object with __call__ and __len__, e.g. an empty registry): its truth value says
+            # nothing about whether it must be called
+            return bool(ctx.fork(2))
+        if name == "__len__":
+            return [0, 3][ctx.fork(2)]
         if name != "__call__":
             return NotImplemented
         ctx.ghost.callback_calls.append(args[0] if args else None)
@@ -177,4 +183,5 @@ def native_cases(tier, seed):
     return [{"prop": PROP, "kind": "sweep", "inputs": {"seed": seed, "n": 3000 if tier == "quick" else 100000}},
             {"prop": PROP, "kind": "sweep", "inputs": {"seed": seed + 1, "n": 600 if tier == "quick" else 20000, "debug_logging": True}},
             {"prop": PROP, "kind": "renames", "inputs": {"seed": seed, "n": 200 if tier == "quick" else 5000}},
-            {"prop": PROP, "kind": "shipped", "inputs": {}}]
+            {"prop": PROP, "kind": "shipped", "inputs": {}},
+            {"prop": PROP, "kind": "via_bridge", "inputs": {"seed": seed, "n": 12 if tier == "quick" else 200}}]
